@@ -212,7 +212,7 @@ pub fn run(ctx: &Ctx, c01: bool, c02: bool) -> i32 {
     assert!(bad.is_empty(), "reference model failed its self test: {:?}", bad);
     ctx.set_extra("oracle_validation", json!({"items": st.len(), "failed": 0, "what": "perft counts of six standard positions vs published values (and of their colour mirrors)"}));
 
-    let mut fams: Vec<Family> = vec![f3(), fcastle(true), fep(!quick), fpromo(), fmate(), fdouble(!quick)];
+    let mut fams: Vec<Family> = vec![f3(), fcastle(true), fep(!quick), fpromo(), fmate(), fdouble(!quick), fpin(!quick)];
     let all_pairs = || {
         let mut v = Vec::new();
         for a in [QUEEN, ROOK, BISHOP, KNIGHT, PAWN] {
@@ -336,7 +336,7 @@ pub fn run(ctx: &Ctx, c01: bool, c02: bool) -> i32 {
         transitions,
         transitions,
         !caps,
-        "every member of the complete families (F3, Fcastle, Fep, Fpromo, Fmate, Fdouble, F4 sub-family) and every state within the depth bound of the BFS roots; a state is a distinct (placement, side, rights, ep) key; each transition is a model move validated against the implementation's move list and successor",
+        "every member of the complete families (F3, Fcastle, Fep, Fpromo, Fmate, Fdouble, Fpin, F4 sub-family) and every state within the depth bound of the BFS roots; a state is a distinct (placement, side, rights, ep) key; each transition is a model move validated against the implementation's move list and successor",
         &["reference model (oracle crate) validated against published perft counts", "positions built through State::new/Board::from, not through FEN"],
     )
 }
